@@ -98,6 +98,8 @@ def check(ctx):
                     ctx.cov["traces_validated_against_impl"] += 1
         inp = {"program": progs.source_of(p)}
         st = r.get("status")
+        if st == "skipped":
+            continue
         if st in ("crash",) or (st == "panic"):
             from . import known
             if st == "panic" and known.classify_panic(r.get("msg"), p["mods"]):
